@@ -223,6 +223,22 @@ def jErr : L1.Err → Json
       | .type => "internal:TypeError" | .other => "internal:NotImplementedError"))]
   | .abstain => Json.mkObj [("err", "abstain")]
 
+def jExit : Cli.Exit → Json
+  | .status n => Json.mkObj [("status", jNat n)]
+  | .oserror (.code 2) => Json.mkObj [("oserror", "ENOENT")]
+  | .oserror (.code 20) => Json.mkObj [("oserror", "ENOTDIR")]
+  | .oserror (.code 21) => Json.mkObj [("oserror", "EISDIR")]
+  | .oserror (.code k) => Json.mkObj [("oserror", Json.str s!"code:{k}")]
+  | .oserror .ENOENT => Json.mkObj [("oserror", "ENOENT")]
+  | .oserror .ENOTDIR => Json.mkObj [("oserror", "ENOTDIR")]
+  | .oserror .EISDIR => Json.mkObj [("oserror", "EISDIR")]
+  | .oserror .other => Json.mkObj [("oserror", "other")]
+  | .traceback k => Json.mkObj [("traceback", Json.str (match k with
+      | .index => "IndexError" | .assertion => "AssertionError" | .attribute => "AttributeError"
+      | .key => "KeyError" | .valueError => "ValueError" | .overflowError => "OverflowError"
+      | .type => "TypeError" | .other => "NotImplementedError"))]
+  | .abstain => Json.mkObj [("abstain", Json.bool true)]
+
 def getHandler (req : Json) : Except String L1.Handler := do
   match req.getObjVal? "handler" with
   | .error _ => pure .raise
@@ -254,6 +270,17 @@ def opVerifyDir (req : Json) : Except String Json := do
   pure (Json.mkObj [("model", match r with
     | .error e => jErr e
     | .ok (_, v) => Json.mkObj [("ret", Json.bool v.ret), ("calls", Json.arr (v.calls.toArray.map jStr))])])
+
+/-- verify_main: {world, top, path, keep_going, xdev}: how `gemato verify` ends -/
+def opVerifyMain (req : Json) : Except String Json := do
+  let root ← getNode (← req.getObjVal? "world")
+  let w : L1.World := ⟨root⟩
+  let top ← getStr (← req.getObjVal? "top")
+  let path ← getStr (← req.getObjVal? "path")
+  let xdev ← (match req.getObjVal? "xdev" with | .ok j => j.getBool? | .error _ => pure true)
+  let kg ← (← req.getObjVal? "keep_going").getBool?
+  pure (Json.mkObj [("model", jExit (Cli.verifyMain w top path kg xdev)),
+    ("detail", match Cli.verifyCommand w top path kg xdev with | .error e => jErr e | .ok b => Json.mkObj [("ret", Json.bool b)])])
 
 /-- lookup: {world, top, api, path, filename} for verify_path / assert_path_verifies / find_path_entry / find_dist_entry -/
 def opLookup (req : Json) : Except String Json := do
@@ -398,7 +425,7 @@ def opUpdate (req : Json) : Except String Json := do
       pure { opt := opt, topSigned := ← (← j.getObjVal? "top_signed").getBool?, keyUsable := ← (← j.getObjVal? "key_usable").getBool? }
     | .error _ => pure {})
   let r := Cli.updateCommand w post top path create prof xdev { hashes := hashes, profile := prof, lastMtime := lm } setTs so doSave sign
-  pure (Json.mkObj [("model", match r with
+  pure (Json.mkObj [("exit", jExit (Cli.mainExit r fun _ => 0)), ("model", match r with
     | .error e => jErr e
     | .ok (s, ws) => Json.mkObj [
         ("writes", Json.arr (ws.toArray.map jWrite)),
@@ -473,6 +500,7 @@ def dispatch (req : Json) : Except String Json := do
   | "resolve_names" => opResolveNames req
   | "verify_dir" => opVerifyDir req
   | "lookup" => opLookup req
+  | "verify_main" => opVerifyMain req
   | "find_top" => opFindTop req
   | "profile_fn" => opProfileFn req
   | "update" => opUpdate req
